@@ -70,7 +70,7 @@ PROPS = {
         "kx": [],
         "technique": "Verus contracts on the extracted Encode/Decode impls of wire.rs and wire/message.rs over ghost byte-stream models of io::Read / io::Write: one ghost function per type gives its wire bytes; Encode::encode writes exactly enc(self) and returns its length; Decode::decode returns Ok(v) only by consuming exactly wire(v); per-type law wire(v) == enc(v) and lemma_message_canonical / lemma_message_fits over those contracts; serialize / deserialize under contract",
         "explanation": "For u8/u16/u32/u64, [u8;N], PublicKey, Signature, git::Oid, RepoId, Timestamp, RefsAt, &[T], BoundedVec<T,N> (both loops, with invariants), Filter, ZeroBytes, Info, node::Features, Node/Inventory/RefsAnnouncement, AnnouncementMessage, Message: (E) encode appends exactly the type's wire bytes and returns their count, Message::encode accepts only <= 65535 bytes; (D) whenever decode returns Ok(v) the bytes it consumed are exactly wire(v) -- so no second byte string decodes to the same value -- with the statement's one exception made explicit: NodeAnnouncement (and Message) may also accept the announcement without its trailing user agent when nothing at all follows, and nothing else -- and (lemma_message_canonical: wire(m) == m.enc()) re-encoding a decoded message reproduces the received bytes; deserialize accepts only the complete canonical encoding; lemma_message_fits: every message within the constructors' limits (BoundedVec bounds, filter sizes, ping/pong padding limits) encodes to <= 65535 bytes.",
-        "not_decided": "Round-trip direction decode(enc(v)) == Ok(v) (that every encoding is accepted) is not proved -- the quickcheck tests sample it; it would need a success condition per decoder. Alias, UserAgent (validated strings) and OnionAddrV3 (cyphernet) are opaque leaves with assumed Encode/Decode contracts; `Decode for String` is verified relative to the assumed contract of String::from_utf8 (Ok only for the UTF-8 encoding of the result), `Encode for &str/String` is an assumed leaf; Refs/SignedRefs, git::Url, VarInt/frames (C14) are outside the unit; Read::chain (used by the repaired NodeAnnouncement::decode) is represented by a stand-in. Assumed: byteorder read/write_uN are big-endian, io::Read/Write stream models, Vec::with_capacity(n).capacity() == n, bloomy's filter is its byte array, `enum as u16` yields the discriminant, InfoType::try_from (4-line match, see unit), byte counters do not overflow usize.",
+        "not_decided": "Round-trip direction decode(enc(v)) == Ok(v) (that every encoding is accepted) is not proved -- the quickcheck tests sample it; it would need a success condition per decoder. Alias, UserAgent (validated strings) and OnionAddrV3 (cyphernet) are opaque leaves with assumed Encode/Decode contracts; `Decode for String` is verified relative to the assumed contract of String::from_utf8 (Ok only for the UTF-8 encoding of the result), `Encode for &str/String` is an assumed leaf; Refs/SignedRefs, git::Url, VarInt/frames (C14) are outside the unit; Read::chain (used by the repaired NodeAnnouncement::decode) is represented by a stand-in. Assumed: byteorder read/write_uN are big-endian, io::Read/Write stream models, Vec::with_capacity(n).capacity() == n, bloomy's filter is its byte array, `enum as u16` yields the discriminant, the contracts of AddressType::try_from and InfoType::try_from in place (Verus cannot discharge vstd's generic TryFrom clause inside the impl it is about; their real bodies are verified against the same contract text as free-fn twins, so a change to either body is decided), Result::unwrap_or, byte counters do not overflow usize.",
     },
     "C01": {
         "vx": ["fetch_run", "fetch_validate", "fetch_ancestry", "refs_verify", "fetch_stage"],
@@ -204,7 +204,7 @@ PROPS = {
         "kx": [],
         "technique": "Verus postconditions (both directions) on the extracted ReplicationFactor, Target::new, Announcer::{is_target_reached,synced_with,timed_out}, Fetcher::{is_target_reached,include_node,next_fetch,ready_to_fetch} against a target_met spec written from the statement",
         "explanation": "is_target_reached returns Some exactly when the target is met (announcer: all preferred seeds synced and the replica count reached; fetcher: all preferred seeds fetched or the replica count reached; the count is the maximum of a range, else the minimum); Announcer::timed_out reports Success exactly then and TimedOut otherwise; synced_with(local node) changes nothing; Fetcher::include_node excludes the local node and nodes that already have a result; ReplicationFactor::range/min keep lower < upper.",
-        "not_decided": "success_counts (fold closures), next_node (iter::from_fn + find_map), Announcer::new, Fetcher::finish, missing_seeds are not ingested; the counts are ghost values assumed to be what success_counts returns.",
+        "not_decided": "success_counts (fold closures), next_node (iter::from_fn + find_map), Announcer::new, Fetcher::finish, missing_seeds are not ingested -- in particular that Announcer::new removes the local node from all three input sets is NOT decided (seeded change C25_3, which forgets the `synced` set there, is missed: exit 0); the counts are ghost values assumed to be what success_counts returns.",
     },
     "C26": {
         "vx": ["term", "term_line"],
